@@ -123,7 +123,8 @@ pub fn pipeline(router: &Router<Rule>, example: &Example) -> Option<(u16, u16, V
         uri,
         host,
         scheme,
-        method: ev["method"].as_str().map(|s| s.to_string()),
+        // a live request always has a method; an example without one stands for a GET
+        method: Some(ev["method"].as_str().unwrap_or("GET").to_string()),
         ip: ev["ip_address"].as_str().map(|s| s.to_string()),
         headers: ev["headers"].as_array().map(|a| a.iter().map(|h| (h["name"].as_str().unwrap_or("").to_string(), h["value"].as_str().unwrap_or("").to_string())).collect()).unwrap_or_default(),
         created_at: ev["datetime"].as_str().map(|s| s.to_string()),
@@ -168,6 +169,10 @@ pub fn walk(router: &Router<Rule>, example: &Example, max_hops: u8, domains: &[S
             Some(u) => u.to_string(),
             None => loc.clone(),
         };
+        // a client keeps the fragment of a Location for itself
+        if let Some(i) = url.find('#') {
+            url.truncate(i);
+        }
         if i > 1 {
             error = Some("AtLeastOneHop");
         }
@@ -462,6 +467,9 @@ fn body_strategy() -> BoxedStrategy<Body> {
         (1, Some("c".to_string())),
         (1, Some("?x=1".to_string())),
         (1, Some("http://example.org/a".to_string())),
+        (1, Some("/b#frag".to_string())),
+        (1, Some("/a#x".to_string())),
+        (1, Some("/to/@rm".to_string())),
     ]);
     let example = (0u8..4, pickw(vec![(3u32, None), (2, Some("GET".to_string())), (2, Some("POST".to_string()))]), pickw(vec![(3u32, None), (1, Some(200u16)), (2, Some(404))]), prop::bool::weighted(0.8), 0u8..5);
     (
@@ -491,6 +499,9 @@ fn make_rule(id: &str, version: &str, b: &Body) -> RuleSpec {
     r.rank = b.rank;
     r.status_code = b.status;
     r.target = b.target.clone();
+    if b.target.as_deref().is_some_and(|t| t.contains("@rm")) {
+        r.variables = vec![json!({"name": "rm", "type": "request_method"})];
+    }
     r.target_hash = Some(format!("{id}-{version}"));
     if b.status.is_some() {
         r.redirect_unit_id = Some(format!("redirect-{id}"));
